@@ -309,7 +309,7 @@ func jsonText(p *P) string {
 			parts = append(parts, string(kb)+":"+jsonText(c))
 		}
 	}
-	if list && len(p.C) > 0 || (len(p.C) == 0 && len(p.Keys) == 0 && p.X != "map") {
+	if list {
 		return "[" + strings.Join(parts, ",") + "]"
 	}
 	return "{" + strings.Join(parts, ",") + "}"
@@ -432,7 +432,7 @@ func decWorker(w *pool.W, arg json.RawMessage) {
 				red = reduceText(s, func(c string) bool { _, bad := dc.Fails(e, c)[cc]; return bad })
 			}
 			cls := dc.Class(cc[0], red)
-			if !reduce {
+			if !reduce && cls != "non-object-document" {
 				cls = "nesting-ladder"
 			}
 			key := cc[0] + ":" + cls + ":" + cc[1]
